@@ -751,6 +751,15 @@ func init() {
 			}
 			return mkBV(64, ^uint64(0))
 		},
+		"internal/bytealg.MakeNoZero": func(r *Run, c *frame, fn *ssa.Function, a []Value) Value {
+			n := int(r.concInt(a[0], "MakeNoZero length"))
+			z := mkBV(8, 0)
+			buf := make([]Value, n)
+			for i := range buf {
+				buf[i] = z
+			}
+			return Slice{S: buf}
+		},
 		"internal/bytealg.CountString": func(r *Run, c *frame, fn *ssa.Function, a []Value) Value {
 			s := a[0].(Str)
 			b := a[1].(*Term)
